@@ -71,12 +71,14 @@ ExpSeq(n) ==
            gh == Mul(lo[h], Gen)               \* Gen^h
        IN lo \o [i \in 1 .. (n - h) |-> Mul(lo[i], gh)]
 
-BuildTables ==
+\* (operators below take a dummy argument so that TLC does not evaluate them eagerly, once per
+\*  instance, when it pre-processes zero-arity constant definitions at start-up)
+BuildTables(u) ==
   LET e == ExpSeq(Order - 1)                                  \* e[i+1] = Gen^i
       l == AntiFunction(e)                                    \* l[Gen^i] = i+1
   IN [exp |-> e, log |-> l]
 
-InitTables == TLCSet(Reg, TLCEval(BuildTables))
+InitTablesp(u) == TLCSet(Reg, TLCEval(BuildTables(u)))
 Tab == TLCGet(Reg)
 
 FastMul(a, b) ==
@@ -96,7 +98,7 @@ FastPow(a, n) ==
 (* Gen really generates (all entries distinct is implied by AntiFunction   *)
 (* being total on NonZero), FastMul = Mul on all a x basis b.              *)
 (***************************************************************************)
-TablesOK ==
+TablesOKp(u) ==
   LET t == Tab IN
   /\ Len(t.exp) = Order - 1
   /\ t.exp[1] = 1
@@ -105,7 +107,7 @@ TablesOK ==
   /\ DOMAIN t.log = NonZero
   /\ \A a \in NonZero : t.exp[t.log[a]] = a
 
-FastMulOKOnBasis ==
+FastMulOKOnBasisp(u) ==
   \A a \in Elems : \A k \in 0 .. (W - 1) : FastMul(a, 2^k) = Mul(a, 2^k)
 
 \* Little-endian 16-bit word view of a byte sequence (even length)
